@@ -160,7 +160,9 @@ impl Diagnostics {
     pub fn into_updated(mut self, ast: &Ast, files: &[SliceFile], options: &SliceOptions) -> Vec<Diagnostic> {
         // Helper function that checks whether a lint should be allowed according to the provided identifiers.
         fn is_lint_allowed_by<'b>(mut identifiers: impl Iterator<Item = &'b String>, lint: &Lint) -> bool {
-            identifiers.any(|identifier| identifier == "All" || identifier == lint.code())
+            // Lint names given on the command line are accepted in any casing, so they're compared that way too.
+            // (The arguments of 'allow' attributes have already been validated case-sensitively.)
+            identifiers.any(|identifier| identifier.eq_ignore_ascii_case("All") || identifier.eq_ignore_ascii_case(lint.code()))
         }
 
         // Helper function that checks whether a lint is allowed by attributes on the provided entity.
